@@ -23,7 +23,11 @@ EXPLANATION = (
     "drops an index otherwise must not be reachable from an entry that reports a "
     "cost, or must compensate the reported figure; (PRE) figures pre-supplied to "
     "contract_nodes_pair come from one call of a simulator covered by SURV. "
-    "Step-by-step numerical equality is not decided."
+    "Step-by-step numerical equality is not decided. "
+    "Later rounds added: "
+    "(MERGE) the annealing move evaluator, by symbolic case analysis (index on the left / "
+    "right / both operands): merged count, survival test, stored count, cost once, size "
+    "iff kept. "
 )
 ASSUMPTIONS = ("merged appearance count never exceeds the global count",)
 
